@@ -195,6 +195,22 @@ fn oracle_aligned(t: &Tree) -> Vec<String> {
     f
 }
 
+/// valid from ANY start (aligned or not, any mix of intervals): a consist saves its units only when it saves itself,
+/// a train simulation saves brake and consist only when it saves itself - so over any call sequence no nested history
+/// grows by more entries than the history of the object that gates it (nodes()[0] of these trees)
+fn oracle_gated(pre: &Tree, post: &Tree) -> Vec<String> {
+    if matches!(pre, Tree::L { .. }) { return vec![]; }
+    let (a, b) = (pre.nodes(), post.nodes());
+    if a.len() != b.len() || a.is_empty() { return vec![]; }
+    let root = b[0].hist.len().saturating_sub(a[0].hist.len());
+    let mut f = Vec::new();
+    for (x, y) in a.iter().zip(b.iter()).skip(1) {
+        let d = y.hist.len().saturating_sub(x.hist.len());
+        if d > root { f.push(format!("{}: history grew by {} entries while {}'s (which gates it) grew by {} (intervals {:?} / {:?})", y.name, d, b[0].name, root, y.si, b[0].si)); }
+    }
+    f
+}
+
 // ------------------------------------------------------------------ object builders
 fn pick_si(r: &mut Rng) -> Option<usize> {
     match r.below(10) { 0 | 1 => None, 2 | 3 | 4 => Some(1), 5 => Some(2), 6 => Some(3), 7 => Some(1 + r.below(12)), 8 => Some(5 + r.below(60)), _ => Some(1 + r.below(4)) }
@@ -358,7 +374,7 @@ fn drive_walk<S: SimObj>(id: String, sim: &mut S, si: Option<usize>, tags: &[Str
             tags.push("run:complete".into());
             let k = sim.steps_done();
             let mut cmds = vec![Cmd::Save]; cmds.extend((0..k).map(|_| Cmd::Step(true)));
-            let fails = if fresh { oracle_walk(&post, si, k, true) } else { vec![] };
+            let mut fails = if fresh { oracle_walk(&post, si, k, true) } else { vec![] }; fails.extend(oracle_gated(&pre, &post));
             em.put(id, "walk", &pre, &cmds, Ok((&post, 0, String::new())), &tags, fails, fresh, extra);
         }
         Ok(Err(e)) => {
@@ -368,7 +384,7 @@ fn drive_walk<S: SimObj>(id: String, sim: &mut S, si: Option<usize>, tags: &[Str
                 Some(s) if s >= 1 => {
                     let k = s - 1;
                     let mut cmds = vec![Cmd::Save]; cmds.extend((0..k).map(|_| Cmd::Step(true))); cmds.push(Cmd::Step(false));
-                    let fails = if fresh { oracle_walk(&post, si, k, true) } else { vec![] };
+                    let mut fails = if fresh { oracle_walk(&post, si, k, true) } else { vec![] }; fails.extend(oracle_gated(&pre, &post));
                     em.put(id, "walk_err", &pre, &cmds, Ok((&post, 1901, m)), &tags, fails, fresh, extra);
                 }
                 _ => {
@@ -376,7 +392,7 @@ fn drive_walk<S: SimObj>(id: String, sim: &mut S, si: Option<usize>, tags: &[Str
                     tags.push("run:err_outside_step".into());
                     let k = sim.steps_done();
                     let mut cmds = vec![Cmd::Save]; cmds.extend((0..k).map(|_| Cmd::Step(true))); cmds.push(Cmd::Step(false));
-                    let fails = if fresh { oracle_walk(&post, si, k, true) } else { vec![] };
+                    let mut fails = if fresh { oracle_walk(&post, si, k, true) } else { vec![] }; fails.extend(oracle_gated(&pre, &post));
                     em.put(id, "walk_err", &pre, &cmds, Ok((&post, 1901, m)), &tags, fails, fresh, extra);
                 }
             }
@@ -416,7 +432,8 @@ fn drive_manual<S: SimObj>(r: &mut Rng, id: String, sim: &mut S, max_steps: usiz
                 errs_in_a_row += 1;
                 cmds.push(Cmd::Step(false));
                 let post = sim.tree();
-                let fails = if in_dom { oracle_aligned(&post) } else { vec![] };
+                let mut fails = if in_dom { oracle_aligned(&post) } else { vec![] };
+                fails.extend(oracle_gated(&pre, &post));
                 em.put(format!("{}/seg{}", id, seg), "calls_err", &pre, &cmds, Ok((&post, 1901, format!("{:#}", e))), &tags, fails, in_dom, extra.clone());
                 seg += 1; pre = post; cmds.clear();
                 if errs_in_a_row >= 2 { return; }
@@ -430,7 +447,8 @@ fn drive_manual<S: SimObj>(r: &mut Rng, id: String, sim: &mut S, max_steps: usiz
         }
     }
     let post = sim.tree();
-    let fails = if in_dom { oracle_aligned(&post) } else { vec![] };
+    let mut fails = if in_dom { oracle_aligned(&post) } else { vec![] };
+    fails.extend(oracle_gated(&pre, &post));
     em.put(format!("{}/seg{}", id, seg), "calls", &pre, &cmds, Ok((&post, 0, String::new())), &tags, fails, in_dom, extra);
 }
 
@@ -482,7 +500,7 @@ fn consist_sim_run(r: &mut Rng, t: usize, em: &mut Emit) {
     if shape.contains('D') { tags.push("has:dummy".into()); }
     let steps = 1 + r.below(60);
     let fail = pick_fail(r, steps);
-    if r.chance(0.12) { let k = r.below(con.loco_vec.len()); misalign_loco(r, &mut con.loco_vec[k], &mut tags); }
+    if r.chance(0.25) { let k = r.below(con.loco_vec.len()); misalign_loco(r, &mut con.loco_vec[k], &mut tags); }
     let pmax: f64 = con.loco_vec.iter().map(loco_rated).sum::<f64>() * 0.3;
     let late_misalign = r.chance(0.05);
     let mut sim = ConsistSimulation::new(con, power_trace(r, steps, pmax, &fail), si);
